@@ -28,12 +28,18 @@ Definition GEN : program :=
      (ERecord "CheckGenerics" [("used", ECall "push" [EField (EVar "checker") "used"; ECon "visited the segment" [EVar "el"]])]
         (Some (EVar "checker")));
    stub "extern::get_path" ["g"] (EField (EVar "g") "path");
-   (* `MsgVariant::new(sig, &mut checker, msg_attr, attrs)`: the variant built from exactly these, and the checker after the
-      signature was traversed (recorded as one more entry of `used`) *)
-   stub "extern::MsgVariant::new" ["sig"; "checker"; "msg_attr"; "attrs_to_forward"]
-     (ECon "()" [ECon "MsgVariant" [EVar "sig"; EVar "msg_attr"; EVar "attrs_to_forward"];
+   (* what `MsgVariant::new` (translated) asks of other components: the fields of a signature (the traversal of the
+      signature is recorded as one more entry of the checker's `used`), syn's traversal of a type / a path (recorded
+      likewise), `StripSelfPath.fold_path` (recorded) *)
+   stub "extern::process_fields" ["sig"; "checker"]
+     (ECon "()" [ECon "fields of" [EVar "sig"];
                  ERecord "CheckGenerics" [("used", ECall "push" [EField (EVar "checker") "used"; ECon "visited the signature" [EVar "sig"]])]
-                   (Some (EVar "checker"))])].
+                   (Some (EVar "checker"))]);
+   stub "extern::visit_type" ["checker"; "t"]
+     (ERecord "CheckGenerics" [("used", ECall "push" [EField (EVar "checker") "used"; ECon "visited the type" [EVar "t"]])] (Some (EVar "checker")));
+   stub "extern::visit_path" ["checker"; "p"]
+     (ERecord "CheckGenerics" [("used", ECall "push" [EField (EVar "checker") "used"; ECon "visited the path" [EVar "p"]])] (Some (EVar "checker")));
+   stub "extern::fold_path" ["folder"; "p"] (ECon "folded by" [EVar "folder"; EVar "p"])].
 
 Lemma evals_compute_calls P K d e en r :
   (forall g h, eval (call P d (K + h)) (K + g) e en = Some r) -> evals P d e en r.
